@@ -560,7 +560,11 @@ def _tuple(eng, a, kw, st, fr, k, node):
     if isinstance(a[0], (list, tuple)):
         return k(tuple(a[0]), st)
     if isinstance(a[0], Opq):
-        return k(Opq(z3.Function("fn:tuple", V, V)(a[0].t)), st)
+        t = z3.Function("fn:tuple", V, V)(a[0].t)
+        q = z3.Const("tq", V)
+        ct = z3.Function("contains", V, V, z3.BoolSort())
+        # a tuple of an iterable has exactly its elements
+        return k(Opq(t), st.assume(z3.ForAll([q], ct(t, q) == ct(a[0].t, q), patterns=[ct(t, q)])))
     if isinstance(a[0], Ref) and a[0].kind == "list":
         # a tuple with the elements of a symbolic list: only its identity is kept
         return k(Opq(eng.fresh("tuple_of_list", "V")), st)
@@ -940,7 +944,7 @@ class PySet:
 def _set(eng, a, kw, st, fr, k, node):
     if not a:
         return k(Opq(z3.Const("emptyset", V)), st)
-    if isinstance(a[0], list) and a[0] and all(isinstance(x, tuple) or _is_z3(x) for x in a[0]):
+    if isinstance(a[0], list) and a[0] and all(isinstance(x, (tuple, Opq)) or _is_z3(x) for x in a[0]):
         return k(PySet(list(a[0])), st)
     return k(Opq(z3.Function("fn:set", V, V)(eng.to_v(a[0]))), st)
 
